@@ -77,14 +77,16 @@ int KnownFindings::match(const std::string& prop, VKind kind, const std::string&
             const Entry& e = entries[i];
             if (e.fixed || e.property != prop || e.kind != vkind_name(kind)) continue;
             if (e.token == tok) return (int)i;
+            // discovery aid only (never used in the committed file): "prefix*" matches any token with that prefix except "...other"
+            if (!e.token.empty() && e.token.back() == '*' && tok.compare(0, e.token.size() - 1, e.token, 0, e.token.size() - 1) == 0 && tok.find("other") == std::string::npos) return (int)i;
         }
         return -1;
     };
-    // "alias:a,b" is a set of alias kinds: known only if every member is listed on its own
-    if (token.compare(0, 6, "alias:") == 0 && token.find(',') != std::string::npos) {
+    // "alias:a+b" is a set of alias shapes: known only if every member is listed on its own
+    if (token.compare(0, 6, "alias:") == 0 && token.find('+') != std::string::npos) {
         int first = -1; size_t pos = 6;
         while (pos <= token.size()) {
-            size_t e = token.find(',', pos); if (e == std::string::npos) e = token.size();
+            size_t e = token.find('+', pos); if (e == std::string::npos) e = token.size();
             int k = find1("alias:" + token.substr(pos, e - pos));
             if (k < 0) return -1;
             if (first < 0) first = k;
@@ -125,7 +127,7 @@ static void add_query_ops(Rng& r, std::vector<Op>& ops, int nmgrs, bool with_com
     Op mk; mk.kind = OP_MKLIST; mk.a = 0; gen::query_items(r, mk, 4, 12); ops.push_back(mk);
     if (with_compose_cap_all) { Op c; c.kind = OP_COMPOSE; c.a = 0; c.entry = r.range(0, 1); c.opt = r.range(0, 3); c.cap = CAP_ALL; ops.push_back(c); }
     Op cm; cm.kind = OP_COMPOSE_MALLOC; cm.a = 0; cm.entry = r.range(0, 2); cm.opt = r.range(0, 3); cm.mgr = r.range(0, nmgrs - 1); ops.push_back(cm);
-    Op d; d.kind = OP_DISSECT; d.a = 1; d.entry = r.range(0, 2); d.opt = r.range(0, 7); d.mgr = r.range(0, nmgrs - 1);
+    Op d; d.kind = OP_DISSECT; d.a = 1; d.entry = r.range(0, 2); d.opt = r.range(0, 7) | (r.chance(120) ? 8 : 0); d.mgr = r.range(0, nmgrs - 1);
     if (r.chance(500)) d.b = 0; else d.text = gen::query_string(r, 4);
     ops.push_back(d);
     if (r.chance(400)) { Op f; f.kind = OP_FREEQL; f.a = r.range(0, 1); ops.push_back(f); }
@@ -272,7 +274,7 @@ Plan generate_plan(const std::string& prop, unsigned long long vseed, unsigned l
         p.extra = J::obj(); p.extra.set("enumerate_loss", 1);
     } else if (prop == "C17") {
         p.mgrs = {MK_LIBC, MK_SIM, MK_COMPLETED}; p.mgr_mask = {0, 0, 0};
-        int giant_cases = 8;
+        int giant_cases = 10;
         if (index < (unsigned long long)giant_cases) {
             p.extra = J::obj(); p.extra.set("mode", "giant"); p.extra.set("case", (long long)index);
             return p;
@@ -349,13 +351,13 @@ Plan generate_plan(const std::string& prop, unsigned long long vseed, unsigned l
         p.sched_param = p.sched_policy == 2 ? r.range(1, 3) : p.sched_policy == 3 ? r.pick(std::vector<int>{2, 8, 30, 100}) : 0;
     } else if (prop == "C15") {
         p.mgrs = {MK_COMPLETED}; p.mgr_mask = {0};
-        static const std::vector<unsigned long long> sizes = {0, 1, 2, 7, 8, 9, 15, 16, 17, 63, 64, 100, 4096, 70000, ~0ull, ~0ull - 7, ~0ull - 8, ~0ull - 9, (~0ull >> 1) + 1, (~0ull >> 1), 1ull << 32, (1ull << 32) + 1, 3, 5};
+        static const std::vector<unsigned long long> sizes = {0, 1, 2, 7, 8, 9, 15, 16, 17, 63, 64, 100, 4096, 4097, 9000, 70000, ~0ull, ~0ull - 7, ~0ull - 8, ~0ull - 9, (~0ull >> 1) + 1, (~0ull >> 1), 1ull << 32, (1ull << 32) + 1, 3, 5};
         int n = r.range(1, thorough ? 40 : 24);
         bool faults = r.chance(500);
         for (int i = 0; i < n; i++) {
             Op o; int k = r.range(0, 11);
             o.a = r.range(0, 7); o.b = r.range(0, 7);
-            auto sz = [&]() -> unsigned long long { return r.chance(700) ? (unsigned long long)r.range(0, 200) : r.pick(sizes); };
+            auto sz = [&]() -> unsigned long long { return r.chance(120) ? 0ull : r.chance(700) ? (unsigned long long)r.range(0, 200) : r.pick(sizes); };
             if (k <= 2) { o.kind = OP_A_MALLOC; o.n1 = sz(); }
             else if (k <= 4) { o.kind = OP_A_CALLOC; o.n1 = sz(); o.n2 = sz(); if (r.chance(100)) { o.n1 = 1ull << 33; o.n2 = 1ull << 31; } }
             else if (k <= 7) { o.kind = OP_A_REALLOC; o.n1 = sz(); if (r.chance(150)) o.a = -1; }
